@@ -10,6 +10,8 @@ pub mod c10;
 pub mod c11;
 pub mod c12;
 pub mod c13;
+pub mod c14;
+pub mod c15;
 pub mod c16;
 pub mod c17;
 
@@ -31,6 +33,8 @@ pub fn run(prop: &str, tier: Tier) -> i32 {
         "C11" => c11::run(tier),
         "C12" => c12::run(tier),
         "C13" => c13::run(tier),
+        "C14" => c14::run(tier),
+        "C15" => c15::run(tier),
         "C16" => c16::run(tier),
         "C17" => c17::run(tier),
         _ => {
@@ -55,6 +59,8 @@ pub fn replay(prop: &str, case: &Value) -> Vec<String> {
         "C11" => c11::replay(case),
         "C12" => c12::replay(case),
         "C13" => c13::replay(case),
+        "C14" => c14::replay(case),
+        "C15" => c15::replay(case),
         "C16" => c16::replay(case),
         "C17" => c17::replay(case),
         _ => vec![],
